@@ -192,6 +192,42 @@ def source_restart_two_loops(req):
     return {'clause_holds': holds, 'observed': {'live_polling_loops': live, 'items_emitted': seen}}
 
 
+def periodic_restart_two_loops(req):
+    """F25: PeriodicDataFrame.start(); the polling coroutine is suspended in its sleep; stop(); start() -> the old coroutine finds
+    its flag cell set again and keeps polling next to the new one."""
+    import pandas as pd
+    from streamz.dataframe import PeriodicDataFrame
+    calls = []
+
+    def datafn(last=None, now=None, **kwargs):
+        calls.append(1)
+        return pd.DataFrame({'x': [1]})
+    pdf = PeriodicDataFrame(datafn=datafn, interval='0ms', start=False)
+    pdf.loop = StubLoop()
+    pdf.start()
+    cb, a, k = pdf.loop.callbacks[0]
+    c1 = cb(*a, **k)
+    s1 = step(c1)                 # suspended in the sleep of its first cycle
+    pdf.stop()
+    pdf.start()
+    new = pdf.loop.callbacks[1:]
+    coros = [c1] + [cb2(*a2, **k2) for cb2, a2, k2 in new]
+    alive = []
+    for c in coros:
+        st = None
+        for _ in range(6):        # let each coroutine run through a few cycles
+            st = step(c)
+            if st[0] == 'done':
+                break
+        alive.append(st[0] != 'done')
+    live = sum(alive)
+    pdf.stop()
+    for c in coros:
+        c.close()
+    return {'clause_holds': live <= 1, 'observed': {'polling_loops_still_cycling_after_stop_start': live,
+                                                    'loops_scheduled_by_second_start': len(new), 'first_step': repr(s1)}}
+
+
 def kafka_reset_after_failed_watermark(req):
     """F17: configured auto.offset.reset=latest, no committed offset, the first watermark query of the partition fails:
     after the first pass the reset is flipped to earliest and the partition starts from the low watermark."""
@@ -298,6 +334,7 @@ def latest_lost_wakeup(req):
 
 SCENARIOS = {'map_async_overtake': map_async_overtake, 'map_async_bound': map_async_bound,
              'zip_remove_upstream_stuck': zip_remove_upstream_stuck, 'source_restart_two_loops': source_restart_two_loops,
+             'periodic_restart_two_loops': periodic_restart_two_loops,
              'kafka_reset_after_failed_watermark': kafka_reset_after_failed_watermark,
              'latest_lost_wakeup': latest_lost_wakeup}
 
